@@ -100,6 +100,41 @@ class Fn:
                 if not stale:
                     out += conj_atoms(b.ast, b.pol)
         out += expr_guards(a)
+        out += self._loop_facts(a, nid)
+        return out
+
+    def _loop_facts(self, a: ast.AST, nid) -> List[Tuple[ast.AST, bool]]:
+        """Inside `for T in L: ..` the collection L is not empty.  Together with an earlier guard clause `if L and P: <leave>` that was
+        not taken (a check hoisted out of the loop: "if there is anything to do and P, give up") this gives `not P` in the loop body."""
+        out: List[Tuple[ast.AST, bool]] = []
+        if nid is None:
+            return out
+        loops = [l for l in enclosing_loops(a, self.node) if isinstance(l, ast.For) and isinstance(l.iter, ast.Name)]
+        for lo in loops:
+            L = lo.iter.id
+            if len([n for n in self.walk() if isinstance(n, ast.Name) and n.id == L and not isinstance(n.ctx, ast.Load)]) != 1:
+                continue
+            ln = self.nid(lo.iter)
+            if ln is None:
+                ln = self.first_nid(lo)
+            for st in self.walk():
+                if not (isinstance(st, ast.If) and not st.orelse and st.body and isinstance(st.body[-1], (ast.Raise, ast.Return))
+                        and isinstance(st.test, ast.BoolOp) and isinstance(st.test.op, ast.And) and len(st.test.values) == 2):
+                    continue
+                vals = st.test.values
+                idx = [i for i, v in enumerate(vals) if isinstance(v, ast.Name) and v.id == L]
+                if len(idx) != 1:
+                    continue
+                cands = [self.cfg.owner[id(n)] for n in ast.walk(st.test) if id(n) in self.cfg.owner]
+                cands = [c_ for c_ in cands if ln is not None and self.cfg.dominates(c_, ln)]
+                if not cands:
+                    continue
+                sn = cands[0]
+                other = vals[1 - idx[0]]
+                names = {x.id for x in ast.walk(other) if isinstance(x, ast.Name)}
+                if any(self.changes_of(v) & self.cfg.between(sn, nid) for v in names if self.changes_of(v)):
+                    continue
+                out += conj_atoms(other, False)
         return out
 
     def card(self, a: ast.AST, var: str) -> Set[int]:
